@@ -1,5 +1,6 @@
 import JominiModel.Driver.Util
 import JominiModel.Model.Json
+import JominiModel.Spec.JsonDoc
 /-
 ops of property C16:
   json <opts> <enc> <entry> <tape> <hex>
@@ -9,6 +10,11 @@ ops of property C16:
     tape  = the tape the REAL parser produced for <hex> (show.rs `text_tape`)
     hex   = the input bytes (replay only; the model converts the tape)
   → hex of the output with every float token replaced by `f<bits>` | na | panic | hang
+  wf <tape> <hex>
+    the runtime-checked hypothesis of C16_total / C16_content: `wf` iff `wfTapeB tape` (the tape is
+    the token list of a document tree) AND, for all 18 option × 2 encoding combinations, the
+    model's `toJson` equals `jsonOfDoc` of that tree (compared as rendered bytes);
+    `notwf` / `mismatch` otherwise.  The harness answers `wf` for every tape the real parser produced.
 -/
 namespace Jomini.Driver.C16
 open Jomini Jomini.Driver Jomini.Json
@@ -63,7 +69,24 @@ def parseEntry : String → Option Entry
 /-- canonical float token of the line protocol: `f<bits>` -/
 def floatTok (bits : Nat) : Bytes := 102 :: natDigits bits
 
+def allOpts : List Opts :=
+  [false, true].flatMap fun p => [DupMode.group, .preserve, .kvp].flatMap fun d =>
+    [Narrow.all, .unquoted, .none].map fun n => ⟨p, d, n⟩
+
+def wfAnswer (t : Tape) : String :=
+  match docOf t with
+  | none => "notwf"
+  | some d =>
+    if !docAt t d then "notwf"
+    else
+      let ok := allOpts.all fun o => [Enc.w1252, Enc.utf8].all fun enc =>
+        match toJson o enc .obj t with
+        | .ok (some v) => render floatTok o v == render floatTok o (jsonOfDoc o enc d)
+        | _ => false
+      if ok then "wf" else "mismatch"
+
 def handle : Handler
+  | ["wf", st, _hex] => (parseTape st).map wfAnswer
   | ["json", so, se, sy, st, _hex] => do
     let o ← parseOpts so
     let enc ← parseEnc se
